@@ -1,6 +1,6 @@
 (* C21 — lemmas about the registry hash-map model (Hashmap.v). *)
 From Coq Require Import List ZArith NArith Bool Lia PeanoNat.
-From SopVerif Require Import Lib.Bytes Gen.Consts Gen.HandleCodec Layout Hashmap.
+From SopVerif Require Import Lib.Bytes Lib.BytesProofs Gen.Consts Gen.HandleCodec Layout Hashmap.
 Import ListNotations.
 
 (* ------------------------------------------------------------------ equality tests, emptiness *)
@@ -988,4 +988,57 @@ Proof.
   intros H. apply Forall_forall. intros o Hin. rewrite forallb_forall in H. specialize (H o Hin).
   destruct o; cbn [wf_opb wf_op] in *; apply Forall_forall; intros x Hx; rewrite forallb_forall in H;
     apply wf_idb_ok; apply (H x Hx).
+Qed.
+(* ------------------------------------------------------------------ is_zero is isZeroData on the encoded record *)
+
+Lemma all_zero_le_val l : all_zero l = true -> le_val l = 0%N.
+Proof.
+  unfold all_zero. induction l as [|x l IH]; cbn [forallb le_val]; intros H; [reflexivity|].
+  apply andb_true_iff in H as [H1 H2]. apply N.eqb_eq in H1. subst x. rewrite (IH H2). reflexivity.
+Qed.
+
+Lemma all_zero_le_bytes n v : (v < 256 ^ N.of_nat n)%N -> all_zero (le_bytes n v) = N.eqb v 0.
+Proof.
+  intros Hv. destruct (N.eqb v 0) eqn:E.
+  - apply N.eqb_eq in E. subst v. unfold all_zero. clear Hv. induction n as [|n IH]; [reflexivity|].
+    cbn [le_bytes forallb]. change (0 / 256)%N with 0%N. change (0 mod 256)%N with 0%N. rewrite IH. reflexivity.
+  - destruct (all_zero (le_bytes n v)) eqn:A; [|reflexivity].
+    apply all_zero_le_val in A. rewrite (le_val_le_bytes n v Hv) in A. subst v. discriminate.
+Qed.
+
+Lemma all_zero_i32 z : (- 2 ^ 31 <= z < 2 ^ 31)%Z -> all_zero (enc_i32 z) = Z.eqb z 0.
+Proof.
+  intros Hz. unfold enc_i32. rewrite all_zero_le_bytes.
+  - destruct (Z.eqb z 0) eqn:E.
+    + apply Z.eqb_eq in E. subst z. reflexivity.
+    + apply Z.eqb_neq in E. apply N.eqb_neq. intros H.
+      assert (z mod 2 ^ 32 = 0)%Z as Hm by (pose proof (Z.mod_pos_bound z (2 ^ 32) ltac:(lia)); lia).
+      apply Z.mod_divide in Hm; [|lia]. destruct Hm as [k Hk]. lia.
+  - pose proof (Z.mod_pos_bound z (2 ^ 32) ltac:(lia)) as Hb. change (256 ^ N.of_nat 4)%N with 4294967296%N.
+    change (2 ^ 32)%Z with 4294967296%Z in *. lia.
+Qed.
+
+Lemma all_zero_i64 z : (- 2 ^ 63 <= z < 2 ^ 63)%Z -> all_zero (enc_i64 z) = Z.eqb z 0.
+Proof.
+  intros Hz. unfold enc_i64. rewrite all_zero_le_bytes.
+  - destruct (Z.eqb z 0) eqn:E.
+    + apply Z.eqb_eq in E. subst z. reflexivity.
+    + apply Z.eqb_neq in E. apply N.eqb_neq. intros H.
+      assert (z mod 2 ^ 64 = 0)%Z as Hm by (pose proof (Z.mod_pos_bound z (2 ^ 64) ltac:(lia)); lia).
+      apply Z.mod_divide in Hm; [|lia]. destruct Hm as [k Hk]. lia.
+  - pose proof (Z.mod_pos_bound z (2 ^ 64) ltac:(lia)) as Hb. change (256 ^ N.of_nat 8)%N with 18446744073709551616%N.
+    change (2 ^ 64)%Z with 18446744073709551616%Z in *. lia.
+Qed.
+
+Lemma all_zero_app a b : all_zero (a ++ b) = all_zero a && all_zero b.
+Proof. unfold all_zero. apply forallb_app. Qed.
+
+(* Go's isZeroData on the 62 bytes of a slot = the model's field-wise test *)
+Lemma is_zero_bytes c : wf_handle c -> is_zero c = forallb (N.eqb 0) (encode c).
+Proof.
+  intros (_ & _ & _ & Hv & Hw & _). change (forallb (N.eqb 0) (encode c)) with (all_zero (encode c)).
+  unfold encode, is_zero, enc_uuid. rewrite !all_zero_app, (all_zero_i32 _ Hv), (all_zero_i64 _ Hw).
+  unfold enc_bool.
+  destruct (all_zero (LogicalID c)), (all_zero (PhysicalIDA c)), (all_zero (PhysicalIDB c)), (IsActiveIDB c),
+    (Version c =? 0)%Z, (WorkInProgressTimestamp c =? 0)%Z, (IsDeleted c); reflexivity.
 Qed.
